@@ -233,6 +233,39 @@ def run(ctx):
             "want": hx(want_lines[k] if k < len(want_lines) else b""), "stderr": err.decode(errors="replace")[-500:]},
             summary=f"remove_invalid_utf8 output differs from the well-formed subsequence at output line {k} (status {st})")
 
+    # 4. the other tools that promise well-formed output: nothing ill-formed may come out of commoncrawl_dedupe, and no piece that
+    #    foldfilter hands to its child may be ill-formed, whatever the width (lines shorter than, equal to and longer than it)
+    ill = [b"caf\xe9 cr\xe8me", b"tail \xc3", b"\x80 stray", b"over\xc0\xaflong", b"sur\xed\xa0\x80rogate", b"big \xf4\x90\x80\x80", b"\xff", b"ok then \xe2\x82"]
+    good = [b"fine", "h\u00e9llo w\u00f6rld".encode(), "\u20ac 5".encode(), b""]
+    st, out, err = pvlib.run_tool([ctx.bin("commoncrawl_dedupe")], b"".join(l + b"\n" for l in good + ill + lines[:3000]), env=pvlib.san_env(), timeout=60)
+    olines = out.split(b"\n")[:-1]
+    osp = pvlib.run_lines(pvlib.PVDRIVER, ["utf8.spec.isutf8 " + hx(l) for l in olines])
+    ctx.count("commoncrawl_dedupe.output-wellformed", len(olines), olines)
+    badl = [l for l, v in zip(olines, osp) if v != "true"]
+    if st != 0 or badl:
+        pvlib.report_violation(ctx, "tool:commoncrawl_dedupe-illformed", {"argv": ["commoncrawl_dedupe"], "stdin_hex": hx(b"".join(l + b"\n" for l in good + ill))[:4000], "status": st,
+                               "ill_formed_output_lines": [hx(x) for x in badl[:5]]},
+                               summary=f"commoncrawl_dedupe wrote the ill-formed line {badl[0][:40]!r}" if badl else f"commoncrawl_dedupe: status {st}")
+    log = os.path.join(ctx.tmp, "pieces.log")
+    for width in (4, 20, 80):
+        for bad_line in ill + [b"x" * (width - 2) + b"\xff", b"x" * (width - 1) + b"\xff", b"x" * width + b"\xff", b"word " * 40 + b"\xe9"]:
+            for sflag in ([], ["-s"]):
+                if os.path.exists(log):
+                    os.unlink(log)
+                data = b"fine\n" + bad_line + b"\nlast\n"
+                st, out, err = pvlib.run_tool([ctx.bin("foldfilter"), "-w", str(width)] + sflag + ["tee", log], data, env=pvlib.san_env(), timeout=30)
+                pieces = open(log, "rb").read().split(b"\n")[:-1] if os.path.exists(log) else []
+                ctx.count("foldfilter.pieces-wellformed", 1, [(width, bad_line, tuple(sflag))])
+                if not pieces:
+                    continue
+                psp = pvlib.run_lines(pvlib.PVDRIVER, ["utf8.spec.isutf8 " + hx(p_) for p_ in pieces])
+                badp = [p_ for p_, v in zip(pieces, psp) if v != "true"]
+                if badp:
+                    pvlib.report_violation(ctx, f"tool:foldfilter-illformed-piece:{width}:{hx(bad_line)[:40]}", {"argv": ["foldfilter", "-w", str(width)] + sflag + ["tee", "LOG"], "stdin_hex": hx(data),
+                                           "status": st, "ill_formed_pieces": [hx(x) for x in badp[:5]]},
+                                           summary=f"foldfilter -w {width} {' '.join(sflag)} handed the ill-formed piece {badp[0][:40]!r} to its child (input line of {len(bad_line)} bytes, exit status {st})")
+                    return
+
 
 def search(ctx, broken):
     """proof broke but the quick domain found nothing: widen."""
